@@ -1,35 +1,40 @@
 (* C28 - The B-tree behaves as an ordered map.  Property theorems only.
-   Model: Model/BTree.v (abstract-node model of src/btree/{tree,leaf,interior}.rs with the byte-size
-   decisions, split points, hint fast paths and cursor algorithms of the code as it is);
-   Spec: Model/BTreeSpec.v (`spec_check`: what an ordered map may return, also used by Corr/C28.v on the
-   real results); invariant: Model/BTreeInv.v.  `run s ops` gives, per operation, the result and the defect
-   class it raised (0 = none; classes 1..7 are the recorded findings, see the `_refuted` theorems). *)
+   Model: Model/BTree.v - abstract-node model of src/btree/{tree,leaf,interior}.rs AS REPAIRED by commits
+   8f0490a a847df1 0e115d7 9c96190 09348e1 a0471f9 (byte-size decisions, split points, hint fast paths, cursor
+   algorithms of the code as it is).  Spec: Model/BTreeSpec.v (`spec_check`: what an ordered map may return,
+   also evaluated by Corr/C28.v on the real results).  Invariant: Model/BTreeInv.v.
+   What the ordered map says about refusals: an insert of an absent key may return Err and leave the map
+   unchanged ONLY when an entry of more than half a page is involved (`refusal_ok`); otherwise it must succeed.
+   `run s ops` gives, per operation, the result and an outcome code; the only code that still occurs from a
+   well-formed tree is F_ZSEP (finding F-C28-8, see zero_separator_refuted). *)
 From Coq Require Import ZArith List Bool.
 From TV Require Import Lib.MachInt Gen.Varint Model.BTree Model.BTreeSpec Model.BTreeInv Model.BTreeWitness
   Proof.BTreeMain Proof.BTreeRefute.
 Import ListNotations.
 Open Scope Z_scope.
 
-(* every history (any operations, keys, value lengths, hints) from any well-formed tree: as long as the run
-   stays outside the recorded defect classes, every result - return values, lookups, forward / backward /
-   seek cursor enumerations - is one an ordered map returns *)
+(* every history (any operations, keys, value lengths, hints) from any well-formed tree: unless the
+   zero-separator panic occurs, every result - return values, lookups, forward / backward / seek cursor
+   enumerations - is one an ordered map returns.  No other exception class is left. *)
 Theorem btree_refines_omap :
   forall (V : Type) (vlen : V -> Z) (veqb : V -> V -> bool),
     (forall v, 0 <= vlen v) -> (forall v, veqb v v = true) ->
     forall (ops : list (op V)) (s : state V),
-      Inv V vlen s -> all_clear V (fst (run V vlen s ops)) = true ->
+      Inv V vlen s -> no_zsep V (fst (run V vlen s ops)) = true ->
       spec_run V vlen veqb (abs_of V s) (combine ops (map fst (fst (run V vlen s ops)))) = true.
 Proof. exact run_refines_l. Qed.
 
-(* ... and after a history that stays in scope the tree is again well formed (uniform depth, sorted
-   leaves inside their separator bounds, page space accounting) and holds exactly the map's entries *)
+(* a history judged to its end and in scope throughout: the tree is again well formed (uniform depth, sorted
+   leaves inside their separator bounds, page space accounting), holds exactly the map's entries, and every
+   operation took a regular branch (no hypothesis about outcome codes is needed) *)
 Theorem btree_state_after :
   forall (V : Type) (vlen : V -> Z) (veqb : V -> V -> bool),
     (forall v, 0 <= vlen v) -> (forall v, veqb v v = true) ->
     forall (ops : list (op V)) (s : state V) (mf : omap V),
-      Inv V vlen s -> all_clear V (fst (run V vlen s ops)) = true ->
+      Inv V vlen s ->
       spec_final V vlen veqb (abs_of V s) (combine ops (map fst (fst (run V vlen s ops)))) = Some mf ->
-      Inv V vlen (snd (run V vlen s ops)) /\ abs_of V (snd (run V vlen s ops)) = mf.
+      Inv V vlen (snd (run V vlen s ops)) /\ abs_of V (snd (run V vlen s ops)) = mf
+      /\ all_clear V (fst (run V vlen s ops)) = true.
 Proof. exact run_final_l. Qed.
 
 (* BTree::create: a well-formed empty map *)
@@ -38,73 +43,57 @@ Theorem btree_created_empty :
     Inv V vlen (init_state V rootpg np) /\ abs_of V (init_state V rootpg np) = [].
 Proof. exact init_inv. Qed.
 
-(* the model is NOT an ordered map inside the classes: one witness history per class, each confirmed on
-   the real code by the correspondence run (known_findings.d/C28.json) *)
-Theorem cursor_forward_refuted : exists ops, refutes F_FWD ops.
-Proof. exists w_fwd. exact fwd_refuted_l. Qed.
-Theorem cursor_seek_refuted : exists ops, refutes F_FWD ops.
-Proof. exists w_seek. exact seek_refuted_l. Qed.
-Theorem cursor_backward_refuted : exists ops, refutes F_BWD ops.
-Proof. exists w_bwd. exact bwd_refuted_l. Qed.
-Theorem hint_fastpath_refuted : exists ops, refutes F_HINT ops.
-Proof. exists w_hint. exact hint_refuted_l. Qed.
-Theorem update_grow_refuted : exists ops, refutes F_UPD ops.
-Proof. exists w_upd. exact upd_refuted_l. Qed.
-Theorem split_leaf_overflow_refuted : exists ops, refutes F_LEAFFULL ops.
-Proof. exists w_leaffull. exact leaffull_refuted_l. Qed.
-Theorem separator_duplicate_refuted : exists ops, refutes F_SEPDUP ops.
-Proof. exists w_sepdup. exact sepdup_refuted_l. Qed.
+(* the surviving class: split_interior can leave an interior page without separators (two separators of more
+   than about 8 KB); the next split below it panics in builds with overflow checks.  Confirmed on the real
+   code (known_findings.d/C28.json F-C28-8). *)
+Theorem zero_separator_refuted : exists ops, refutes F_ZSEP ops.
+Proof. exists w_zsep. exact zsep_refuted_l. Qed.
 
-Theorem interior_split_overflow_refuted : exists ops, refutes F_INTFULL ops.
-Proof. exists w_intfull. exact intfull_refuted_l. Qed.
+(* HISTORICAL: the witnesses of the seven findings fixed in /repo are handled like an ordered map by the model
+   of the repaired code (their replay lines are re-run on the real code on every check) *)
+Theorem former_witnesses_accepted :
+  accepted w_fwd /\ accepted w_seek /\ accepted w_bwd /\ accepted w_hint /\ accepted w_upd /\ accepted w_leaffull
+  /\ accepted w_sepdup /\ accepted w_intfull.
+Proof. exact former_witnesses_accepted_l. Qed.
 
-(* non-vacuity: a history with leaf splits, a root split, deletes, updates of all three kinds, an append
-   through the hint, and all three cursors stays outside every class and is accepted *)
+(* non-vacuity: a history with leaf splits, a root split, deletes that empty a whole leaf, updates of all three
+   kinds, an append through the hint, and all three cursors is accepted to its end *)
 Definition nv_ops : list (op wval) :=
   map (fun i => wins i 4000 (i + 1)) [2;3;4;5;6;7;8;9;10;11]
-  ++ [OAppend (wk 12) (300, 40); ODelete (wk 7); OUpdate (wk 3) (4000, 41); OUpdate (wk 4) (100, 42);
-      OUpdate (wk 12) (900, 43); OIine (wk 4) (5, 44); OIine (wk 7) (5, 45); OGet (wk 7); OGet (wk 1);
-      OFwd 1000; OBwd 1000; OSeek (wk 7) 5; OReopen (Some 4); wins 13 20 46; OFwd 1000].
+  ++ [OAppend (wk 12) (300, 40); ODelete (wk 6); ODelete (wk 7); ODelete (wk 8); ODelete (wk 9);
+      OUpdate (wk 3) (4000, 41); OUpdate (wk 4) (100, 42); OUpdate (wk 12) (900, 43);
+      OIine (wk 4) (5, 44); OIine (wk 7) (5, 45); OGet (wk 7); OGet (wk 1);
+      OFwd 1000; OBwd 1000; OSeek (wk 6) 5; OReopen (Some 4); wins 13 20 46; OFwd 1000].
 Example c28_nonvacuous :
   all_clear wval (wrun nv_ops) = true
-  /\ spec_run wval wvlen wveqb [] (combine nv_ops (map fst (wrun nv_ops))) = true
-  /\ depth wval (root (snd (run wval wvlen (init_state wval 1 2) nv_ops))) = 1%nat
-  /\ length (abs_of wval (snd (run wval wvlen (init_state wval 1 2) nv_ops))) = 12%nat.
-Proof. vm_compute. repeat split. Qed.
+  /\ (exists mf, spec_final wval wvlen wveqb [] (combine nv_ops (map fst (wrun nv_ops))) = Some mf /\ length mf = 9%nat)
+  /\ depth wval (root (snd (run wval wvlen (init_state wval 1 2) nv_ops))) = 1%nat.
+Proof. vm_compute. split; [reflexivity|]. split; [eexists; split; reflexivity | reflexivity]. Qed.
 
 Check btree_refines_omap :
   forall (V : Type) (vlen : V -> Z) (veqb : V -> V -> bool),
     (forall v, 0 <= vlen v) -> (forall v, veqb v v = true) ->
     forall (ops : list (op V)) (s : state V),
-      Inv V vlen s -> all_clear V (fst (run V vlen s ops)) = true ->
+      Inv V vlen s -> no_zsep V (fst (run V vlen s ops)) = true ->
       spec_run V vlen veqb (abs_of V s) (combine ops (map fst (fst (run V vlen s ops)))) = true.
 Check btree_state_after :
   forall (V : Type) (vlen : V -> Z) (veqb : V -> V -> bool),
     (forall v, 0 <= vlen v) -> (forall v, veqb v v = true) ->
     forall (ops : list (op V)) (s : state V) (mf : omap V),
-      Inv V vlen s -> all_clear V (fst (run V vlen s ops)) = true ->
+      Inv V vlen s ->
       spec_final V vlen veqb (abs_of V s) (combine ops (map fst (fst (run V vlen s ops)))) = Some mf ->
-      Inv V vlen (snd (run V vlen s ops)) /\ abs_of V (snd (run V vlen s ops)) = mf.
+      Inv V vlen (snd (run V vlen s ops)) /\ abs_of V (snd (run V vlen s ops)) = mf
+      /\ all_clear V (fst (run V vlen s ops)) = true.
 Check btree_created_empty :
   forall (V : Type) (vlen : V -> Z) (rootpg np : Z),
     Inv V vlen (init_state V rootpg np) /\ abs_of V (init_state V rootpg np) = [].
-Check cursor_forward_refuted : exists ops, refutes F_FWD ops.
-Check cursor_seek_refuted : exists ops, refutes F_FWD ops.
-Check cursor_backward_refuted : exists ops, refutes F_BWD ops.
-Check hint_fastpath_refuted : exists ops, refutes F_HINT ops.
-Check update_grow_refuted : exists ops, refutes F_UPD ops.
-Check split_leaf_overflow_refuted : exists ops, refutes F_LEAFFULL ops.
-Check separator_duplicate_refuted : exists ops, refutes F_SEPDUP ops.
-Check interior_split_overflow_refuted : exists ops, refutes F_INTFULL ops.
+Check zero_separator_refuted : exists ops, refutes F_ZSEP ops.
+Check former_witnesses_accepted :
+  accepted w_fwd /\ accepted w_seek /\ accepted w_bwd /\ accepted w_hint /\ accepted w_upd /\ accepted w_leaffull
+  /\ accepted w_sepdup /\ accepted w_intfull.
 
 Print Assumptions btree_refines_omap.
 Print Assumptions btree_state_after.
 Print Assumptions btree_created_empty.
-Print Assumptions cursor_forward_refuted.
-Print Assumptions cursor_seek_refuted.
-Print Assumptions cursor_backward_refuted.
-Print Assumptions hint_fastpath_refuted.
-Print Assumptions update_grow_refuted.
-Print Assumptions split_leaf_overflow_refuted.
-Print Assumptions separator_duplicate_refuted.
-Print Assumptions interior_split_overflow_refuted.
+Print Assumptions zero_separator_refuted.
+Print Assumptions former_witnesses_accepted.
